@@ -286,7 +286,7 @@ func runC09(x *core.Ctx) {
 		x.Distinct(core.Hash([]byte(class), m))
 		x.Sample(class, 2, func() any { return map[string]any{"mutant": hexOf(clipBytes(m))} })
 		for envi := range c09Envs {
-			if envi >= 3 && class != "b.5byte-remlen" {
+			if envi >= 3 && !strings.HasSuffix(class, "remlen") {
 				break // the last two environments differ from the first three only before the body is decoded
 			}
 			if f := c09Exec(class, m, envi); f != nil {
@@ -345,10 +345,53 @@ func runC09(x *core.Ctx) {
 		for c, k := range cuts {
 			try(k, reframe(v.B[0], v.B[hdr:c]))
 		}
+		// the same cuts inside a property section with the property length
+		// shortened too (section end, cut and frame end coincide): only those
+		// that leave a property without its value or with part of it
+		for _, pl := range v.Fields {
+			if pl.Kind != spec.FPropLen || pl.InWill {
+				continue
+			}
+			old, _, ok := spec.ReadVarint(v.B[pl.Start:pl.End])
+			if !ok {
+				continue
+			}
+			for c, k := range cuts {
+				if c <= pl.End || c > pl.End+int(old) {
+					continue
+				}
+				nb := append([]byte{}, v.B[hdr:pl.Start]...)
+				nb = spec.AppendVarint(nb, uint32(c-pl.End))
+				nb = append(nb, v.B[pl.End:c]...)
+				try(k+".property-length-shortened-too", reframe(v.B[0], nb))
+			}
+		}
 		// (b) 5-byte continuations at every varint position
 		for _, f := range v.Fields {
 			if f.Kind != spec.FRemLen && f.Kind != spec.FPropLen && f.Kind != spec.FVarint {
 				continue
+			}
+			// longer runs of continuation bytes (6 to 40 bytes): a size check
+			// that looks at an accumulated multiplier wraps around
+			for _, n := range []int{6, 7, 8, 9, 10, 11, 12, 13, 16, 20, 32, 40} {
+				for _, cb := range []byte{0x80, 0xff} {
+					for _, last := range []byte{0x00, 0x7f} {
+						long := append(bytes.Repeat([]byte{cb}, n-1), last)
+						switch f.Kind {
+						case spec.FRemLen:
+							try("b.long-remlen", append(append([]byte{v.B[0]}, long...), body...))
+						case spec.FVarint:
+							if nb := adjustPropLen(v, hdr, f, n-(f.End-f.Start), long); nb != nil {
+								try("b.long-subid", reframe(v.B[0], nb))
+							}
+						default:
+							nb := append([]byte{}, v.B[hdr:f.Start]...)
+							nb = append(nb, long...)
+							nb = append(nb, v.B[f.End:]...)
+							try("b.long-proplen", reframe(v.B[0], nb))
+						}
+					}
+				}
 			}
 			for mask := 0; mask < 16; mask++ {
 				for _, last := range []byte{0x00, 0x01, 0x7f} {
